@@ -748,7 +748,7 @@ func c14CopyNamespace(ns sast.Namespace, sh *rand.Rand) sast.Namespace {
 	out := sast.Namespace{Annotations: c14CopyAnn(ns.Annotations, sh), Entities: sast.Entities{}, Enums: sast.Enums{}, Actions: sast.Actions{}, CommonTypes: sast.CommonTypes{}}
 	for _, k := range c14Keys2(ns.Entities, sh) {
 		e := ns.Entities[k]
-		ne := sast.Entity{Annotations: c14CopyAnn(e.Annotations, sh), ParentTypes: e.ParentTypes, Shape: c14CopyRecordType(e.Shape, sh)}
+		ne := sast.Entity{Annotations: c14CopyAnn(e.Annotations, sh), ParentTypes: append([]sast.EntityTypeRef(nil), e.ParentTypes...), Shape: c14CopyRecordType(e.Shape, sh)}
 		if e.Tags != nil {
 			ne.Tags = c14CopyType(e.Tags, sh)
 		}
@@ -787,20 +787,37 @@ func c14CopySchema(s *sast.Schema, sh *rand.Rand) *sast.Schema {
 }
 
 func c14SchemaObs(obs map[string]string, prefix string, s *schema.Schema) {
-	c14Protect(obs, prefix+".cedar", func() string {
-		b, err := s.MarshalCedar()
-		if err != nil {
-			return "error"
-		}
-		return string(b)
-	})
-	c14Protect(obs, prefix+".json", func() string {
-		b, err := s.MarshalJSON()
-		if err != nil {
-			return "error"
-		}
-		return string(b)
-	})
+	c14SchemaObsOrder(obs, prefix, s, false)
+}
+
+// c14SchemaObsOrder: both encodings of one schema value; jsonFirst swaps the order of the two calls (an encoder
+// that rewrites the schema it is given makes the other encoding depend on the call history).
+func c14SchemaObsOrder(obs map[string]string, prefix string, s *schema.Schema, jsonFirst bool) {
+	ced := func() {
+		c14Protect(obs, prefix+".cedar", func() string {
+			b, err := s.MarshalCedar()
+			if err != nil {
+				return "error"
+			}
+			return string(b)
+		})
+	}
+	js := func() {
+		c14Protect(obs, prefix+".json", func() string {
+			b, err := s.MarshalJSON()
+			if err != nil {
+				return "error"
+			}
+			return string(b)
+		})
+	}
+	if jsonFirst {
+		js()
+		ced()
+	} else {
+		ced()
+		js()
+	}
 }
 
 func c14SchemaMarshalCase(key string, s *sast.Schema) *c14Case {
@@ -813,7 +830,7 @@ func c14SchemaMarshalCase(key string, s *sast.Schema) *c14Case {
 			} else {
 				cp = c14CopySchema(s, sh)
 			}
-			c14SchemaObs(obs, "schema", schema.NewSchemaFromAST(cp))
+			c14SchemaObsOrder(obs, "schema", schema.NewSchemaFromAST(cp), rep%2 == 1)
 			return obs
 		}}
 }
@@ -1017,7 +1034,7 @@ func c14SchemaDecodeCase(key string, doc string, isJSON bool) *c14Case {
 				return obs
 			}
 			obs["decode"] = "ok"
-			c14SchemaObs(obs, "schema", &s)
+			c14SchemaObsOrder(obs, "schema", &s, rep%4 >= 2)
 			return obs
 		}}
 }
